@@ -3,6 +3,7 @@
    <!-- BEGIN:findings --> … <!-- END:findings -->   from known_findings.json
    <!-- BEGIN:seeded -->   … <!-- END:seeded -->     from seeded/*/meta.json + notes.md
    <!-- BEGIN:engines -->  … <!-- END:engines -->    from engines/*.json + MANIFEST.json
+   <!-- BEGIN:coverage --> … <!-- END:coverage -->   from facts/coverage.json (tools/gocover.py)
 """
 import json, glob, os, re
 
@@ -97,10 +98,27 @@ def theorems():
     return "\n".join(out)
 
 
+def coverage():
+    cp = os.path.join(V, "facts", "coverage.json")
+    if not os.path.exists(cp):
+        return "(run tools/gocover.py)"
+    d = json.load(open(cp))
+    out = ["| file of /repo | statements reached / all | engines whose harness reaches it (statements) | functions no harness reaches |", "|---|---|---|---|"]
+    for f, v in sorted(d["files"].items()):
+        if v["statements"] < 5:
+            continue
+        eng = ", ".join("%s %d" % (k, n) for k, n in sorted(v["by_engine"].items(), key=lambda kv: -kv[1])[:6])
+        un = ", ".join(v["functions_unreached"][:12]) + (" …(%d more)" % (len(v["functions_unreached"]) - 12) if len(v["functions_unreached"]) > 12 else "")
+        out.append("| %s | %d / %d | %s | %s |" % (f, v["reached"], v["statements"], eng, un))
+    t = d["total"]
+    out.append("| **total** | **%d / %d (%.1f %%)** | tier %s, seed %s | |" % (t["reached"], t["statements"], 100.0 * t["reached"] / max(1, t["statements"]), d.get("tier"), d.get("seed")))
+    return "\n".join(out)
+
+
 def main():
     p = os.path.join(V, "DESIGN.md")
     s = open(p).read()
-    for name, fn in (("findings", findings), ("seeded", seeded), ("engines", engines), ("theorems", theorems)):
+    for name, fn in (("findings", findings), ("seeded", seeded), ("engines", engines), ("theorems", theorems), ("coverage", coverage)):
         b, e = "<!-- BEGIN:%s -->" % name, "<!-- END:%s -->" % name
         if b in s and e in s:
             i, j = s.index(b) + len(b), s.index(e)
